@@ -467,6 +467,21 @@ class ResTarget(object):
                 ResTarget.registry["resources"][i] = (lab, res, "untracked")
         return r.name
 
+    def churn(self, label):
+        """tracks a short-lived resource that is dropped without being untracked (and collected at once), then a new one - which
+        CPython's allocator readily places at an address one of the dropped ones had. The new ones are tracked resources like any other."""
+        temps = [Resource("%s-tmp%d" % (label, i)) for i in range(40)]
+        for t in temps:
+            current_context.track_resource(t)
+        old = {id(t) for t in temps}
+        del t, temps
+        again = [Resource("%s-again%d" % (label, i)) for i in range(40)]
+        for r in again:
+            ResTarget.registry["resources"].append((label, r, "tracked"))
+            current_context.track_resource(r)
+            self.mine.append(r)
+        return len(old & {id(r) for r in again})
+
     def sec(self):
         from Pyro5 import errors
         raise errors.SecurityError("not allowed")
